@@ -15,7 +15,8 @@ CHECKS = {
         level="translation_validation",
         text="For every generated operator/shape/mode skeleton the real apply_algebra_lowering runs and z3 "
              "proves (unsat) that its output denotes the same value as the defining equation of the operator "
-             "for ALL tensor entries; sat models are replayed numerically before being reported.",
+             "for ALL tensor entries (operands: terminals, sums, scaled, transposed, dense list tensors and list tensors "
+             "with literal zeros in five patterns); sat models are replayed numerically before being reported.",
         technique="SMT translation validation (z3, nonlinear real arithmetic) of the real lowering pass per skeleton",
         design="§4 C06", engine="E1"),
 }
@@ -238,7 +239,9 @@ CHECKS["C18"] = dict(
     level="proof",
     text="The real SumDegreeEstimator handlers (dispatched through MultiFunction.__call__) run under CrossHair on "
          "polynomial skeletons with symbolic element degrees (scalar polynomials with powers and gradients, components "
-         "of mixed, nested mixed, symmetric, symmetric-in-mixed and Piola-on-manifold elements, sub/super-degree pairs); "
+         "of mixed, nested mixed, symmetric, symmetric-in-mixed and Piola-on-manifold elements, sub/super-degree pairs, "
+         "restriction/conj/real/imag/variable/transpose wrappers, unlowered inner/dot/outer/cross/div/curl/nabla_*, "
+         "conditional/min/max, quadrilateral cells, meshes with symbolic coordinate degree); "
          "CrossHair confirms over all paths that estimate >= the exact generic-data degree computed by an independent "
          "max-plus calculus with its own physical-component -> sub-element map.",
     technique="CrossHair symbolic execution (z3) of the real degree-estimation handlers with symbolic degrees",
@@ -251,8 +254,11 @@ CHECKS["C19"] = dict(
          "(every shape with <= 2 internal nodes, four families with 3; unary/binary/cutoff kinds, arbitrary sharing) and "
          "confirms over all paths: each distinct node once, operands before users, map == recursive application. "
          "Dispatch of every registered expression type under ~70 handler-name sets is tabulated from the real "
-         "MultiFunction/Transformer tables and compared by z3 with the nearest-ancestor rule.",
-    technique="CrossHair symbolic execution (z3) over DAG shapes + SMT check of dispatch tables",
+         "MultiFunction/Transformer tables and compared by z3 with the nearest-ancestor rule. The memoisation of "
+         "memoized_handler and of DAGTraverser.__call__ (keyword contexts: different names with equal values, equal "
+         "names with different values, subsets, reused instance) is run for real and z3 proves the result equal to "
+         "the plain recursive application of the same rules.",
+    technique="CrossHair symbolic execution (z3) over DAG shapes + SMT check of dispatch tables and of memoised traversals",
     design="§4 C19", engine="E2", note=XH_NOTE)
 
 CHECKS["C13"] = dict(
